@@ -119,7 +119,7 @@ def main():
             pre = None
             writes = ('setitem', 'delitem', 'pop', 'setdefault', 'clear', 'badwrite', 'insertu', 'popmin')
             reads = ('get', 'contains', 'minkey', 'maxkey', 'keys', 'len', 'iter', 'getitem', 'badget', 'badbound',
-                     'bool', 'haskey', 'values', 'index')
+                     'bool', 'haskey', 'values', 'index', 'badbyvalue')
             op = rng.choice(writes[:2] * 4 + writes[2:] + reads * 2)
             if kind == 'query':
                 op = rng.choice(['keys', 'keys', 'keys', 'minkey', 'maxkey', 'contains'])
@@ -127,6 +127,8 @@ def main():
                 op = 'contains'
             if is_set and op == 'insertu':
                 op = 'setitem'
+            if op == 'badbyvalue' and (is_set or impl != 'c' or api.bad_val(fam) is api._SENT):     # (Python's byValue converts nothing: finding D50)
+                op = 'bool'
             if op == 'clear' and rng.random() < 0.7:
                 op = 'setitem'
             k = rng.randint(1, nk)
@@ -238,6 +240,9 @@ def main():
                     ev['res'] = ['v', len(t)]
                 elif op == 'bool':
                     ev['res'] = ['v', 1 if t else 0]
+                elif op == 'badbyvalue':
+                    t.byValue(api.bad_val(fam))
+                    ev['res'] = ['ok']
                 elif op == 'haskey':
                     ev['res'] = ['v', 1 if t.has_key(rk) else 0]
                 elif op in ('values', 'index'):
